@@ -4,7 +4,7 @@
    [appended l t r] the call r returned a line whose text is the text of l followed by exactly t;
    [fld name t] = " name=" ++ t.  Reference renderings: Spec/TextSpec.v. *)
 From PV Require Import Base.Prelude Model.Fastlog Model.FastlogOps Model.FastlogAsFound Spec.TextSpec
-  Proofs.Fastlog Proofs.FastlogIP6 Proofs.FastlogAsFound.
+  Proofs.Fastlog Proofs.FastlogIP6 Proofs.FastlogLine Proofs.FastlogInside Proofs.FastlogAsFound.
 Open Scope N_scope.
 
 (* Uint8 / Uint16 / Uint32 print strconv's decimal text *)
@@ -90,6 +90,72 @@ Theorem C20_field_ipslice : forall l name ip,
   appended l (fld name (netip_text ip)) (f_ipslice l name (Some ip)).
 Proof. exact field_ipslice. Qed.
 Print Assumptions C20_field_ipslice.
+
+(* C20_field_g for EVERY appender, in one statement over the op type (Model/FastlogOps.v):
+   [op_ok o]: the arguments are in the range of their Go types, and for Int / IP the text delegated
+   to strconv / netip is the reference text; [op_fits (index l) o]: the reference text fits (ByteArray
+   keeps one spare byte, IPArray 41 bytes before each element: the library's conservative guards);
+   then the call appends exactly the reference text [spec_text o]. *)
+Theorem C20_field_any : forall l o,
+  wf l -> op_ok o -> op_fits (index l) o = true -> appended l (spec_text o) (run_op l o).
+Proof. exact op_appended. Qed.
+Print Assumptions C20_field_any.
+
+(* the three arrays, when they fit, print the library's array convention *)
+Theorem C20_field_string_array : forall l name vs,
+  wf l -> fits l (fld name (strarr_text vs)) ->
+  appended l (fld name (strarr_text vs)) (f_string_array l name vs).
+Proof. exact string_array_fit. Qed.
+Print Assumptions C20_field_string_array.
+
+Theorem C20_field_ip_array : forall l name vs,
+  wf l -> Forall ipv_ok vs -> op_fits (index l) (OIPArr name vs) = true ->
+  appended l (fld name (iparr_text vs)) (f_ip_array l name vs).
+Proof. exact ip_array_fit. Qed.
+Print Assumptions C20_field_ip_array.
+
+Theorem C20_field_byte_array : forall l name v,
+  wf l -> bytes_ok v -> op_fits (index l) (OByteArr name v) = true ->
+  appended l (fld name (bytearr_text v)) (f_byte_array l name v).
+Proof. exact byte_array_fit. Qed.
+Print Assumptions C20_field_byte_array.
+
+(* C20_line: a line equals the concatenation of its reference-rendered fields whenever it fits,
+   and no call panics; ToString returns exactly that text *)
+Theorem C20_line : forall os l,
+  wf l -> (index l <= BUFSZ)%nat -> Forall op_ok os -> line_fits (index l) os = true ->
+  exists l', run_ops l os = Ok l' /\ extends l (concat (map spec_text os)) l' /\
+             to_string l' = Ok (text_of l ++ concat (map spec_text os)).
+Proof. exact line_renders. Qed.
+Print Assumptions C20_line.
+
+Example C20_line_nonvacuous :
+  wf ex_line /\ (index ex_line <= BUFSZ)%nat /\ Forall op_ok ex_ops /\ line_fits (index ex_line) ex_ops = true /\
+  List.length (concat (map spec_text ex_ops)) = 195%nat.
+Proof. exact line_nonvacuous. Qed.
+Print Assumptions C20_line_nonvacuous.
+
+(* Write: the same text followed by '\n' when one more byte fits *)
+Theorem C20_write : forall l, wf l -> (index l < BUFSZ)%nat -> write_out l = Ok (text_of l ++ [10]).
+Proof. exact write_out_text. Qed.
+Print Assumptions C20_write.
+
+(* C20_arrays_inside: ByteArray, StringArray and IPArray of ANY length (also longer than the whole
+   buffer), called with the index anywhere inside the buffer, never panic and leave the index inside
+   the buffer: over-long arrays are truncated, not overflowed. *)
+Theorem C20_arrays_inside : forall l o,
+  is_array o = true -> op_ok o -> wf l -> (index l <= BUFSZ)%nat ->
+  exists l', run_op l o = Ok l' /\ wf l' /\ (index l' <= BUFSZ)%nat.
+Proof. exact arrays_inside. Qed.
+Print Assumptions C20_arrays_inside.
+
+Example C20_arrays_inside_nonvacuous :
+  let l := mkLine (repeat 46 BUFSZ) 2040 in
+  wf l /\ (index l <= BUFSZ)%nat /\
+  op_ok (OByteArr [97] (repeat 255 3000)) /\ is_array (OByteArr [97] (repeat 255 3000)) = true /\
+  (BUFSZ < List.length (spec_text (OByteArr [97%N] (repeat 255%N 3000))))%nat.
+Proof. exact arrays_inside_nonvacuous. Qed.
+Print Assumptions C20_arrays_inside_nonvacuous.
 
 (* ---------------------------------------------------------------------------------------------
    The code AS FOUND (/repo 040c128) violated the property in five ways; each was reproduced on
